@@ -13,9 +13,9 @@ from ..runner import Part
 PROPERTY = "C05"
 LEVEL = "fault_enumeration"
 RULE = ("histories: every sequence (length <= 3 quick / 4 thorough) of request outcomes {success, success after k "
-        "drops, slow in-time success, two-piece success, retries exhausted, a lone fragment on every attempt, rejected after j drops, send error, receive error, late corrupted answer then "
+        "drops, slow in-time success, two-piece success, success followed by an idle connection drop, all connection attempts refused, retries exhausted, a lone fragment on every attempt, rejected after j drops, send error, receive error, late corrupted answer then "
         "slow success / silence} with 0.4 T gaps between some requests, followed by a silent request, "
-        "x {udp-rtu, tcp} x keep-alive x (T, R) grid, with and without a new event loop between requests; plus the entry "
+        "x {udp-rtu, tcp} x keep-alive x (T, R) grid (timeouts 0.2 .. 7 s), with and without a new event loop between requests (previous loop closed or left open); plus the entry "
         "points connect/discover/search_inverters over a (timeout, retries) grid for each family; distinct = distinct "
         "(transport, keep-alive, T, R, outcome-class sequence, loop-change flag) tuples and entry-point configurations")
 ASSUMPTIONS = [
